@@ -43,7 +43,7 @@ man = {
                  "kind_free_text": "Lean 4 model + theorems (lean/), compiled core-only Lean drivers, Go correspondence harness built from /repo's working tree (harness/), python orchestration (checklib.py)"}],
     "checks": checks,
     "not_applicable": na,
-    "notes": "See DESIGN.md. known_findings.json lists recorded and fixed defects of hive.go.",
+    "notes": "See DESIGN.md (section 12 = as built). known_findings.json and known_findings/*.json list recorded and fixed defects of hive.go. hooks.add_only is relative to the original source: every hook is a call line plus verif_on.go/verif_off.go; two later hook commits in runtime/timed (195f429, 42ecb04) change the signature of hook functions introduced by earlier hook commits and touch no original line.",
 }
 json.dump(man, open(os.path.join(V, "MANIFEST.json"), "w"), indent=1)
 print(f"{len(checks)} checks, {len(na)} not_applicable")
